@@ -99,8 +99,11 @@ def rule_slot(ctx, M, u):
                 r = bi.body.reach([t for _, t in ee], avoid_blocks=[w[0] for w in ws], stop_blocks=exits, avoid_edges=avoid)
                 if any(x in r for x in exits):
                     probs.append("error is not stored on every Err path")
-        mine = [b for b, d, sp in ups if bi.guarded_by(b, ee)]
-        for p in flow.once_on_paths(bi, [t for _, t in ee], mine, exits, avoid):
+        re_ = bi.outcome_edges(c.site, "Ready")
+        oke = bi.outcome_edges(c.site, "Ready", "Ok")
+        mine = [b for b, d, sp in ups if bi.guarded_by(b, re_)]
+        # once on every path Ready -> Err -> end of the iteration (the increment may precede the Ok/Err split)
+        for p in flow.once_on_paths(bi, [t for _, t in re_], mine, exits, list(avoid) + list(oke)):
             probs.append("completed counter on the Err path: " + p)
         if any(d != 1 for b, d, sp in ups if b in mine):
             probs.append("completed counter changed by something other than +1")
